@@ -74,14 +74,71 @@ fn fill_plane(w: usize, h: usize, style: u32, salt: usize, src: &mut dyn FnMut()
     p
 }
 
+/// Family 4: contents full of coincidences between neighbours. Every plane is assembled from a
+/// small pool of row templates (the two chroma planes share one pool, so a Cb row often equals a
+/// Cr row, the row above, or both), and every template is written with an alphabet of one to
+/// three values (black level, mid-grey, the clamping values, ...) in runs of 1, 2 or 4 samples,
+/// so equal groups of four, equal rows and "special" values turn up next to different ones all
+/// the time. A conversion that remembers, skips or special-cases anything by looking at its
+/// neighbours has to get all of these right.
+fn repeating_planes(w: usize, h: usize, src: &mut dyn FnMut() -> u8) -> (Vec<u8>, Vec<u8>, Vec<u8>) {
+    const NOTABLE: [u8; 16] = [0, 1, 15, 16, 17, 127, 128, 129, 128, 16, 234, 235, 236, 240, 254, 255];
+    let cw = (w + 1) / 2;
+    let ch = (h + 1) / 2;
+    let mut value = |src: &mut dyn FnMut() -> u8| -> u8 {
+        let a = src();
+        if a & 1 == 0 {
+            NOTABLE[(a >> 1) as usize % 16]
+        } else {
+            src()
+        }
+    };
+    let mut alphabet = |src: &mut dyn FnMut() -> u8| -> Vec<u8> {
+        let n = 1 + src() as usize % 3;
+        (0..n).map(|_| value(src)).collect()
+    };
+    let ay = alphabet(src);
+    let ac = if src() % 4 == 0 { vec![128u8] } else { alphabet(src) };
+    let mut template = |len: usize, alpha: &[u8], src: &mut dyn FnMut() -> u8| -> Vec<u8> {
+        let run = [1usize, 2, 4, 4][src() as usize % 4];
+        let mut row = Vec::with_capacity(len);
+        let mut cur = alpha[0];
+        for x in 0..len {
+            if x % run == 0 {
+                cur = alpha[src() as usize % alpha.len()];
+            }
+            row.push(cur);
+        }
+        row
+    };
+    let ny = 1 + src() as usize % 3;
+    let nc = 1 + src() as usize % 3;
+    let ty: Vec<Vec<u8>> = (0..ny).map(|_| template(w, &ay, src)).collect();
+    let tc: Vec<Vec<u8>> = (0..nc).map(|_| template(cw, &ac, src)).collect();
+    let mut y = Vec::with_capacity(w * h);
+    for _ in 0..h {
+        y.extend_from_slice(&ty[src() as usize % ny]);
+    }
+    let mut cb = Vec::with_capacity(cw * ch);
+    let mut cr = Vec::with_capacity(cw * ch);
+    for _ in 0..ch {
+        let k = src() as usize;
+        cb.extend_from_slice(&tc[k % nc]);
+        cr.extend_from_slice(&tc[(k / 4) % nc]);
+    }
+    (y, cb, cr)
+}
+
 /// Plane content families. 0: random bytes; 1: extremes; 2: per-position-unique pattern so a
 /// shifted / mirrored / interpolated sample is always visible; 3: every plane gets its own
 /// independently chosen structured style (flat / repeated rows / repeated columns / ... ), e.g.
-/// flat luma over varying chroma.
-fn planes(w: usize, h: usize, family: u32, src: &mut dyn FnMut() -> u8) -> (Vec<u8>, Vec<u8>, Vec<u8>) {
+/// flat luma over varying chroma. 4: see `repeating_planes`.
+pub const FAMILIES: u32 = 5;
+pub fn planes(w: usize, h: usize, family: u32, src: &mut dyn FnMut() -> u8) -> (Vec<u8>, Vec<u8>, Vec<u8>) {
     let cw = (w + 1) / 2;
     let ch = (h + 1) / 2;
     match family {
+        4 => repeating_planes(w, h, src),
         0 | 1 | 2 => (fill_plane(w, h, family, 0, src), fill_plane(cw, ch, family, 1, src), fill_plane(cw, ch, family, 2, src)),
         _ => {
             let sy = [3u32, 4, 5, 6, 7, 3, 6, 0][(src() % 8) as usize];
@@ -98,7 +155,7 @@ fn check_picture(w: usize, y: &[u8], cb: &[u8], cr: &[u8]) -> Result<(), String>
 
 /// As `check_picture`, but the three planes are handed over as sub-slices starting `offs` bytes
 /// into larger buffers (callers pass slices of packed frames; nothing promises any alignment).
-fn check_picture_at(w: usize, y: &[u8], cb: &[u8], cr: &[u8], offs: (usize, usize, usize)) -> Result<(), String> {
+pub fn check_picture_at(w: usize, y: &[u8], cb: &[u8], cr: &[u8], offs: (usize, usize, usize)) -> Result<(), String> {
     let h = if w == 0 { 0 } else { y.len() / w };
     let pad = |p: &[u8], k: usize| -> Vec<u8> {
         let mut v = vec![0xEEu8; k];
@@ -150,7 +207,7 @@ fn size_labels(w: usize, h: usize) -> Labels {
 fn grid_item(ctx_seed: u64, wmax: u64, i: u64, acc: &mut Acc) {
     let w = (i % wmax + 1) as usize;
     let h = (i / wmax + 1) as usize;
-    for family in 0..4u32 {
+    for family in 0..FAMILIES {
         let bytes = super::content_bytes(ctx_seed ^ ((w as u64) << 20) ^ ((h as u64) << 8) ^ family as u64, w * h * 2 + 32);
         let mut k = 0;
         let mut src = || {
@@ -168,10 +225,10 @@ fn grid_item(ctx_seed: u64, wmax: u64, i: u64, acc: &mut Acc) {
         acc.count(nontrivial);
     }
     for l in size_labels(w, h) {
-        acc.label_n(l, 4);
+        acc.label_n(l, FAMILIES as u64);
     }
     if w == 7 && h == 3 {
-        acc.sample(|| json!({"w": w, "h": h, "families": ["hash bytes", "extremes", "position-unique"]}));
+        acc.sample(|| json!({"w": w, "h": h, "families": ["hash bytes", "extremes", "position-unique", "structured planes", "repeating rows / groups / notable values"]}));
     }
 }
 
@@ -179,7 +236,7 @@ fn random_case(g: &mut Gen, wmax: i64, hmax: i64) -> Verdict {
     let w = if g.chance(1, 4) { g.range(1, 12) } else { g.range(1, wmax) } as usize;
     let h = if g.chance(1, 4) { g.range(1, 6) } else { g.range(1, hmax) } as usize;
     // keep the tape usage bounded: larger pictures use the pattern families more often
-    let family = if w * h > 1500 { *g.pick(&[2u32, 3]) } else { g.below(4) };
+    let family = if w * h > 1500 { *g.pick(&[2u32, 3, 4]) } else { g.below(FAMILIES) };
     let offs = (g.below(4) as usize, g.below(4) as usize, g.below(4) as usize);
     let mut src = || g.byte();
     let (y, cb, cr) = planes(w, h, family, &mut src);
@@ -223,7 +280,7 @@ fn extreme_item(seed: u64, i: u64, acc: &mut Acc) {
     let small = ((i / 30) % 5 + 1) as usize;
     let wide = (i / 150) % 2 == 0;
     let (w, h) = if wide { (big, small) } else { (small, big) };
-    for family in [2u32, 3] {
+    for family in [2u32, 3, 4] {
         let bytes = super::content_bytes(seed ^ ((w as u64) << 24) ^ ((h as u64) << 4) ^ family as u64, 4096);
         let mut k = 0;
         let mut src = || {
@@ -237,7 +294,7 @@ fn extreme_item(seed: u64, i: u64, acc: &mut Acc) {
         }
         acc.count(true);
     }
-    acc.label_n(if wide { "very wide" } else { "very tall" }, 2);
+    acc.label_n(if wide { "very wide" } else { "very tall" }, 3);
     if i == 7 {
         acc.sample(|| json!({"w": w, "h": h, "families": ["position-unique", "structured"]}));
     }
@@ -252,13 +309,13 @@ pub fn run(ctx: &Ctx) -> i32 {
     let (cases, rw, rh) = ctx.tier.pick((100_000u64, 300i64, 120i64), (1_500_000u64, 700i64, 300i64));
     reports.push(tape_suite(ctx, "random_sizes", cases, 1600, &move |g| random_case(g, rw, rh)));
     let mut extra = Map::new();
-    extra.insert("grid".into(), json!(format!("every (w,h) in 1..={} x 1..={} x 4 content families", wmax, hmax)));
+    extra.insert("grid".into(), json!(format!("every (w,h) in 1..={} x 1..={} x 5 content families", wmax, hmax)));
     let exhaustive = false; // the property quantifies over all sizes; only the stated box is complete
     finish(
         ctx,
         reports,
         Summary {
-            rule: "size_grid enumerates every width x height in the stated box with three plane-content families (hash bytes, extremes, per-position-unique pattern); random_sizes draws size and content from the proptest tape. Oracle: per-pixel BT.601 integer model of luma (x,y) with chroma (x/2,y/2), output length 4wh, no panic; empty picture -> empty output. Non-trivial = width not a multiple of 4, or odd height, or width >= 8; distinct by plane contents.",
+            rule: "size_grid enumerates every width x height in the stated box with five plane-content families (hash bytes, extremes, per-position-unique pattern, independently structured planes, and planes assembled from a few repeated row templates over one-to-three-value alphabets so that equal neighbouring groups / rows / planes and special values occur all the time); random_sizes draws size and content from the proptest tape. Oracle: per-pixel BT.601 integer model of luma (x,y) with chroma (x/2,y/2), output length 4wh, no panic; empty picture -> empty output. Non-trivial = width not a multiple of 4, or odd height, or width >= 8; distinct by plane contents.",
             assumptions: vec!["planes have the documented sizes (chroma ceil(w/2) x ceil(h/2)); other shapes are outside the property".into()],
             exhaustive,
             extra,
